@@ -70,7 +70,7 @@ def search(spec):
             # no wrong result observed: look for the race itself
             cases, gores, model, bad, hits = race_collect(ctx, spec, "quick")
             if hits and not bad:
-                return race_replay(ctx, hits)[0]
+                return race_replay(ctx, hits, spec)[0]
         if not bad:
             return None
         i = bad[0]
@@ -83,19 +83,20 @@ def search(spec):
 RACE_DIRS = re.compile(r"/(parser|interpreter|scope)/[A-Za-z0-9_]+\.go:\d+")
 
 
-def race_collect(ctx, spec, tier="quick"):
+def race_collect(ctx, spec, tier="quick", env_more=None):
     ctx.log("race: building the harness with -race")
     binp = checklib.go_build(ctx, out="harness-race", race=True)
     logp = os.path.join(ctx.work, "race")
     for f in glob.glob(logp + ".*"):
         os.remove(f)
     cases, gores, model, bad = stress(ctx, binp, tier, "race", spec.get("shards", 8), 1500,
-                                      env_extra={"GORACE": f"log_path={logp} exitcode=0 history_size=3"})
+                                      env_extra=dict({"GORACE": f"log_path={logp} exitcode=0 history_size=3", "VERIF_RACE_LOG": logp}, **(env_more or {})))
     reports = []
     for f in sorted(glob.glob(logp + ".*")):
-        txt = open(f, errors="replace").read()
-        reports += [r for r in txt.split("==================") if "DATA RACE" in r]
-    hits = [r for r in reports if RACE_DIRS.search(r)]
+        txt = open(f, errors="replace").read(8 << 20)  # a flooded log is not read to its end
+        reports += [r for r in txt.split("==================") if "DATA RACE" in r][:2000]
+    dirs = spec.get("race_dirs", RACE_DIRS)
+    hits = [r for r in reports if dirs.search(r)]
     cov = ctx.coverage
     cov["race_evaluations"] = len(cases)
     cov["race_reports_total"] = len(reports)
@@ -107,25 +108,26 @@ def race_collect(ctx, spec, tier="quick"):
     return cases, gores, model, bad, hits
 
 
-def race_replay(ctx, hits):
-    frames = sorted(set(m.group(0) for r in hits for m in RACE_DIRS.finditer(r)))
+def race_replay(ctx, hits, spec=None):
+    dirs = (spec or {}).get("race_dirs", RACE_DIRS)
+    frames = sorted(set(m.group(0) for r in hits for m in dirs.finditer(r)))
     rp = checklib.write_replay(ctx, "race", {"frames": frames[:40], "report": hits[0][:6000]},
                                "no data race with frames in parser/, interpreter/, scope/", f"{len(hits)} race reports",
                                f"./check {ctx.prop} --tier thorough", tag="race-report")
     return rp, frames
 
 
-def race_run(ctx, spec, tier="quick"):
-    """thorough tier: the same stress under the race detector; reports with frames in
-    parser/, interpreter/ or scope/ are failures"""
-    cases, gores, model, bad, hits = race_collect(ctx, spec, tier)
+def race_run(ctx, spec, tier="quick", env_more=None):
+    """the same stress under the race detector; reports with frames in the directories of the
+    property (default parser/, interpreter/, scope/) are failures"""
+    cases, gores, model, bad, hits = race_collect(ctx, spec, tier, env_more)
     for i in bad[:2]:
         rp = checklib.write_replay(ctx, "input", {"payload": cases[i], "readable": cases[i]},
                                    model.get(i, ("MISSING", {}))[0], gores.get(i, "MISSING"),
                                    f"./check {ctx.prop} --replay <this file>", tag="race")
         checklib.violation(ctx, rp, f"(under -race) go={gores.get(i, 'MISSING')[:80]!r}")
     if hits:
-        rp, frames = race_replay(ctx, hits)
+        rp, frames = race_replay(ctx, hits, spec)
         checklib.violation(ctx, rp, f"data race: {frames[0]}")
     checklib.write_evidence(ctx)
     return 1 if ctx.violations else 0
